@@ -1,5 +1,5 @@
 INIT Init
 NEXT Next
 CONSTRAINT Rec
-POSTCONDITION Verdict
+POSTCONDITION VerdictC07
 CHECK_DEADLOCK FALSE
